@@ -494,7 +494,9 @@ class SchedEngine(Engine):
         if obs['cap'] and incomplete:
             d('I-progress', 'step cap reached with calls still running', steps=obs['steps'])
         # no recomputation after a completed call (no forced writer overlapping)
-        forced = [c for c in calls if c['op'] == 'goc' and c['force'] and 'return' in c]
+        # (a writer is any call that computed and saved - forced, or itself a reader that met a writer in the middle of its
+        # save: whoever tries to load while the entry is being rewritten finds a partial file and has to compute)
+        forced = [c for c in calls if c['op'] == 'goc' and (c['force'] or c['computed']) and 'return' in c]
         for c in calls:
             if c['op'] != 'goc' or c['force'] or 'return' not in c or not c['computed']:
                 continue
@@ -502,7 +504,7 @@ class SchedEngine(Engine):
                               isinstance(p.get('ret'), int) for p in calls) or (scn.get('pre') and c['key'] == 'k0')
             overlap = any(f is not c and f['key'] == c['key'] and not (f['return'] < c['invoke'] or f['invoke'] > c['return']) for f in forced)
             if prior_store and not overlap:
-                d('I-no-recompute', 'call started after another call for the key had returned a stored value, yet recomputed (no forced writer overlapping)',
+                d('I-no-recompute', 'call started after another call for the key had returned a stored value, yet recomputed (no writer overlapping)',
                   call=[c['thread'], c['idx']], invoke=c['invoke'])
         # get that overlaps nobody and comes after a store must see the value
         writers = [c for c in calls if c['op'] == 'goc' and 'return' in c and c['computed']]
